@@ -54,6 +54,49 @@ func checkC17(c *Ctx) {
 		c.bad("C17-DOM", "SexpHash.HashSet", "call TypeCheckField", set.Pos(), "HashSet does not call the field type check exactly once")
 	} else {
 		tc := calls[0].(*ssa.Call)
+		// the key that is checked is the key that is stored: same value as the one hashed / consed
+		{
+			checked := tc.Call.Args[1]
+			hashExpr := c.fn("HashExpression")
+			consF := c.fn("Cons")
+			n, same := 0, true
+			var where token.Pos
+			eachInstr(set, func(b *ssa.BasicBlock, i int, in ssa.Instruction) {
+				call, ok := in.(*ssa.Call)
+				if !ok {
+					return
+				}
+				var used ssa.Value
+				switch call.Call.StaticCallee() {
+				case hashExpr:
+					if hashExpr != nil && len(call.Call.Args) >= 2 {
+						used = call.Call.Args[1]
+					}
+				case consF:
+					if consF != nil && len(call.Call.Args) >= 1 {
+						used = call.Call.Args[0]
+					}
+				}
+				if used == nil {
+					return
+				}
+				n++
+				if used != checked {
+					same = false
+					where = call.Pos()
+				}
+			})
+			if n == 0 {
+				c.undecided("C17-DOM", "SexpHash.HashSet", "checked key is the stored key", set.Pos(), "the hashing / pairing of the key was not found")
+			} else {
+				if !where.IsValid() {
+					where = tc.Pos()
+				}
+				c.check(same, "C17-DOM", "SexpHash.HashSet", "checked key is the stored key", where,
+					"the value handed to the field type check is the very value that is hashed and stored",
+					"the key that is hashed and stored is not the value that was handed to the field type check (it is rewritten in between, e.g. a one-element array unwrapped to its symbol): the check sees a non-symbol key, is skipped, and the write lands on a declared field unchecked")
+			}
+		}
 		nMut := 0
 		eachInstr(set, func(b *ssa.BasicBlock, i int, in ssa.Instruction) {
 			if !isMutation(in) {
